@@ -2,7 +2,7 @@
     Property theorems only. *)
 From Coq Require Import ZArith List Bool Permutation Sorted.
 Import ListNotations.
-From CV Require Import Model.M_flow Model.M_hooks Model.M_pipeline Proof.P_hooks Proof.P_cnt Proof.P_endreq Proof.P_flow_thm.
+From CV Require Import Model.M_flow Model.M_hooks Model.M_pipeline Proof.P_hooks Proof.P_cnt Proof.P_endreq Proof.P_flow_thm Proof.P_flow_gen.
 Open Scope Z_scope.
 
 (** The hooks of a point run in ascending priority order with ties in attachment order:
@@ -75,6 +75,15 @@ Theorem c09_end_request_at_most_once : forall E fuel o st' r,
 Proof. exact thm_end_request_at_most_once. Qed.
 Print Assumptions c09_end_request_at_most_once.
 
+(** ... and in every TERMINATING session exactly once for every request object whose close() got past its
+    `closed` guard, never for any other ([closed] = the request ids with closed = True; 0 is the class-default
+    request that sits in the serving slot between requests, closed from the start). *)
+Theorem c09_end_request_exactly_once_if_closed : forall E fuel o st' r,
+  run_flow E fuel server_session init_state = (o, st') -> o <> OutOfFuel -> r <> 0 ->
+  countr r (journal st') = if memZ r (closed (sid st')) then 1%nat else 0%nat.
+Proof. exact (gthm_end_request_exactly_once_if_closed prog pparam sess_fuel handwritten_flow_checks). Qed.
+Print Assumptions c09_end_request_exactly_once_if_closed.
+
 Theorem c09_end_request_only_in_close : forall E fuel st o st',
   run_flow E fuel (Call F_request_run) st = (o, st') -> o <> OutOfFuel ->
   count (RunHooks OnEndRequest) (journal st') = count (RunHooks OnEndRequest) (journal st).
@@ -83,9 +92,10 @@ Print Assumptions c09_end_request_only_in_close.
 
 (* c09_end_request_exactly_once (full statement): for every request object r that was loaded into the
    serving slot during a terminating server session, countr r (journal st') = 1.
-   Proved: "<= 1" (above).  Missing: ">= 1", i.e. that every served request is closed before the slot is
-   cleared or reloaded; this needs a whole-program invariant over request identities that the abstraction
-   of Proof/P_aflow.v does not track.  It is covered by the differential fault enumeration (vcheck C09). *)
+   Proved: "<= 1" for every execution, and "= 1 exactly for the requests whose close() ran" for every terminating
+   one (above).  Missing: that close() IS called on every served request before the slot is cleared or
+   reloaded; this needs a whole-program invariant over request identities that the abstraction of
+   Proof/P_aflow.v does not track.  It is covered by the differential fault enumeration (vcheck C09). *)
 
 (** Non-vacuity: a concrete hook list with ties, a failing ordinary hook, failsafe hooks behind it. *)
 Example c09_nonvacuous :
